@@ -384,3 +384,5 @@ M("C16", "include-source-never-read", PST, "            source = fd.read()\n", "
 M("C13", "ips-open-arguments-swapped", NODES, 'with open(self.ips_file_path, "rb") as ips_file:', 'with open("rb", self.ips_file_path) as ips_file:', "C13.R2")
 M("C07", "binary-node-resolver-not-stored", NODES, "        self.symbol_base = path.replace(\"/\", \"_\").replace(\".\", \"_\")\n        self.resolver = resolver\n", "        self.symbol_base = path.replace(\"/\", \"_\").replace(\".\", \"_\")\n", "C07.RU")
 M("C12", "cli-arguments-never-parsed", "a816/cli.py", "    args = parser.parse_args()\n", "", "C12.RU")
+M("C03", "block-not-cleared-after-flush", PROG, "                current_block_addr = self.resolver.pc\n                current_block = b\"\"\n", "                current_block_addr = self.resolver.pc\n", "C03.R2")
+M("C07", "db-returns-inside-loop", CG, "        code.append(ByteNode(ExpressionNode(expr, resolver, file_info)))\n    return code", "        code.append(ByteNode(ExpressionNode(expr, resolver, file_info)))\n        return code", "C07.R3")
